@@ -328,8 +328,163 @@ async fn scenario(args: &Args, sc: &Scenario, rep: &mut Report, idx: u64) {
     pair.sconn.close(wtransport::VarInt::from_u32(0), b"done");
 }
 
+/// Several accept calls of one kind are parked in *different tasks*; some are then cancelled
+/// (abort / timeout) or complete; every call still parked must be handed one of the streams the
+/// peer opens afterwards, within a bound, each stream exactly once. (Looping acceptors hide a lost
+/// wake-up because their next call polls the queue again; parked ones do not.)
+async fn parked_case(uni: bool, keepers: usize, transients: usize, mode: &'static str, transients_first: bool, multi: bool, rep: &mut Report) {
+    let ctx = format!("parked|{}|keepers={keepers}|transients={transients}|mode={mode}|order={}|rt={}", if uni { "uni" } else { "bi" }, if transients_first { "transients-first" } else { "keepers-first" }, if multi { "multi" } else { "current" });
+    rep.eval(ctx.clone());
+    let pair = match ends::pair(PairOpts::default()).await {
+        Ok(p) => p,
+        Err(e) => return rep.inconclusive(format!("{ctx}: {e}")),
+    };
+    let (opener, acceptor) = (pair.cconn.clone(), pair.sconn.clone());
+    let hb = Heartbeat::start();
+    let accept_one = move |c: Connection| async move {
+        if uni {
+            let mut r = c.accept_uni().await.map_err(|e| e.to_string())?;
+            let id = r.id().into_u64();
+            let mut b = [0u8; 8];
+            r.read_exact(&mut b).await.map_err(|e| format!("{e:?}"))?;
+            Ok::<(u64, u64), String>((id, u64::from_be_bytes(b)))
+        } else {
+            let (_s, mut r) = c.accept_bi().await.map_err(|e| e.to_string())?;
+            let id = r.id().into_u64();
+            let mut b = [0u8; 8];
+            r.read_exact(&mut b).await.map_err(|e| format!("{e:?}"))?;
+            Ok((id, u64::from_be_bytes(b)))
+        }
+    };
+    let spawn_group = |n: usize, transient: bool| {
+        let mut v = vec![];
+        for _ in 0..n {
+            let c = acceptor.clone();
+            let f = accept_one.clone();
+            v.push(tokio::spawn(async move {
+                if transient && mode == "timeout" {
+                    match tokio::time::timeout(ms(60), f(c)).await {
+                        Ok(r) => Some(r),
+                        Err(_) => None,
+                    }
+                } else {
+                    Some(f(c).await)
+                }
+            }));
+        }
+        v
+    };
+    let (keep, trans);
+    if transients_first {
+        trans = spawn_group(transients, true);
+        tokio::time::sleep(ms(20)).await;
+        keep = spawn_group(keepers, false);
+    } else {
+        keep = spawn_group(keepers, false);
+        tokio::time::sleep(ms(20)).await;
+        trans = spawn_group(transients, true);
+    }
+    tokio::time::sleep(ms(25)).await;
+    let mut expect_done = keepers;
+    match mode {
+        "abort" => {
+            for t in &trans {
+                t.abort();
+            }
+        }
+        "timeout" => tokio::time::sleep(ms(80)).await,
+        _ => expect_done += transients, // "complete": nobody is cancelled
+    }
+    tokio::time::sleep(ms(15)).await;
+    // the peer opens exactly as many streams as calls are still parked, one at a time
+    let mut opened = vec![];
+    let mut keep_streams: Vec<Box<dyn std::any::Any + Send>> = vec![];
+    for k in 0..expect_done {
+        let tag = 0xC08_0000u64 + k as u64;
+        let r: Result<u64, String> = async {
+            if uni {
+                let mut s = opener.open_uni().await.map_err(|e| e.to_string())?.await.map_err(|e| e.to_string())?;
+                s.write_all(&tag.to_be_bytes()).await.map_err(|e| e.to_string())?;
+                let id = s.id().into_u64();
+                keep_streams.push(Box::new(s));
+                Ok(id)
+            } else {
+                let (mut s, r) = opener.open_bi().await.map_err(|e| e.to_string())?.await.map_err(|e| e.to_string())?;
+                s.write_all(&tag.to_be_bytes()).await.map_err(|e| e.to_string())?;
+                let id = s.id().into_u64();
+                keep_streams.push(Box::new((s, r)));
+                Ok(id)
+            }
+        }
+        .await;
+        match r {
+            Ok(id) => opened.push((id, tag)),
+            Err(e) => return rep.inconclusive(format!("{ctx}: opening: {e}")),
+        }
+        tokio::time::sleep(ms(40)).await;
+    }
+    let b0 = hb.beats();
+    let mut got = vec![];
+    let mut hung = 0;
+    let handles: Vec<_> = if mode == "complete" { keep.into_iter().chain(trans).collect() } else { keep };
+    let deadline = Instant::now() + Duration::from_secs(5);
+    for h in handles {
+        let left = deadline.saturating_duration_since(Instant::now()).max(ms(50));
+        let mut h = h;
+        match within(left, &mut h).await {
+            Waited::Done(Ok(Some(Ok(x)))) => got.push(x),
+            Waited::Done(Ok(Some(Err(e)))) => return rep.inconclusive(format!("{ctx}: accept error {e}")),
+            Waited::Done(Ok(None)) | Waited::Done(Err(_)) => return rep.inconclusive(format!("{ctx}: keeper ended unexpectedly")),
+            Waited::TimedOut => {
+                hung += 1;
+                h.abort();
+            }
+        }
+    }
+    let beats = hb.beats() - b0;
+    if hung > 0 {
+        if beats < 100 {
+            return rep.inconclusive(format!("{ctx}: runtime heartbeat too slow ({beats}) to trust the pending observation"));
+        }
+        rep.violation(
+            format!("C08|parked-accept-not-woken|{}|mode={mode}", if uni { "uni" } else { "bi" }),
+            format!("{hung} of {expect_done} parked accept call(s) were still pending 5 s after the peer had opened {} stream(s) for them ({} delivered)", opened.len(), got.len()),
+            J::obj([("context", J::s(ctx.clone())), ("opened", J::s(format!("{opened:?}"))), ("delivered", J::s(format!("{got:?}"))), ("heartbeats", J::u(beats))]),
+        );
+    }
+    let mut g = got.clone();
+    g.sort();
+    g.dedup();
+    if g.len() != got.len() {
+        rep.violation("C08|duplicate", format!("parked accepts returned the same stream twice: {got:?}"), J::obj([("context", J::s(ctx.clone()))]));
+    }
+    for x in &got {
+        if !opened.contains(x) {
+            rep.violation("C08|invented", format!("parked accept returned stream {x:?}, opened were {opened:?}"), J::obj([("context", J::s(ctx.clone()))]));
+        }
+    }
+    rep.count("parked_accepts_woken", got.len() as u64);
+    pair.cconn.close(wtransport::VarInt::from_u32(0), b"done");
+    pair.sconn.close(wtransport::VarInt::from_u32(0), b"done");
+}
+
 pub fn run(args: &Args) -> Report {
     let mut rep = Report::new();
+    for multi in [true, false] {
+        let rt = crate::runtime(multi, 4);
+        rt.block_on(async {
+            for uni in [true, false] {
+                for mode in ["abort", "timeout", "complete"] {
+                    for (keepers, transients) in if args.thorough { vec![(1usize, 1usize), (1, 3), (2, 1), (3, 2)] } else { vec![(1, 1), (2, 2)] } {
+                        for transients_first in [false, true] {
+                            parked_case(uni, keepers, transients, mode, transients_first, multi, &mut rep).await;
+                        }
+                    }
+                }
+            }
+        });
+        rt.shutdown_timeout(Duration::from_millis(100));
+    }
     let mut scs = vec![];
     let ns: &[usize] = if args.thorough { &[1, 10, 100, 300, 1000] } else { &[1, 10, 100, 300] };
     let mut i = 0;
